@@ -20,7 +20,7 @@ PROPS = {
                 streams=[('w1', 'S1', 40, 60), ('w2', 'S1', 20, 60), ('w1', 'S7', 20, 60)],
                 configs=['dbg', 'rel'], need=['destroy', 'probe', 'create']),
     'C02': dict(title='Every access path returns the entity\'s own, latest component values',
-                coq=['props/C02.vo'], tags=[2, 6],
+                coq=['props/C02.vo'], tags=[2, 6, (9, 11)],   # (9, 11): a read through a direct handle returned another entity's values
                 streams=[('w1', 'S2', 40, 70), ('w2', 'S2', 30, 70)],
                 configs=['dbg', 'rel'], need=['write', 'readall', 'create']),
     'C03': dict(title='Arbitrary, forged or foreign handles are memory-safe and never match by accident',
